@@ -101,6 +101,24 @@ add("C16", "comp_mc", "exploration",
     "Every well-typed generated program must compile; every single-fault mutant of every program (undefined field, object without / scalar with selection set, undefined argument, missing required argument, incompatible literal or variable type incl. nullability and input-object fields, undeclared / unused variable, duplicate response name; one fault at one position) must be rejected with a diagnostic.",
     comp_note + " Mutants break exactly one rule by construction; the menus' type-correctness is cross-checked by C09's validator.", "exhaustive single-fault mutant enumeration on the real compiler", "2/C16")
 
+add("C27", "comp_mc", "exploration",
+    "For every accepted program of the families: (a) param_type.ts of every client field whose selection set the generator knows structurally is parsed with swc and compared with that selection set and the schema: exactly one property per selection named by alias or name; for server fields nullable iff the schema field is nullable and a list iff it is a list, at every list level; object selections recursively; (b) raw_response_type.ts of every entrypoint is compared with its operation text: response keys per inline-fragment alternative, nesting and list levels.",
+    comp_note + " @updatable / @loadable selections, client field references and client pointers are checked for presence and name only.", "bounded exhaustive program enumeration + structural comparison of generated types with selection sets, schema and operation", "2/C27")
+
+add("C10", "comp_mc", "exploration",
+    "For every entrypoint of every accepted program of the families, conforming responses are enumerated as query executions against a consistent world: the base world (everything non-null, lists of length 1, first concrete type, entity id = path) and every world within d deviations of it (null, list length 0/2, null element, same entity twice, every other concrete type, the other scalar value, an entity shared between positions), each nullable variable also omitted; the REAL runtime (libs/isograph-react/src/core/*.ts, type-blanked by swc spans and run under node) normalizes the response and reads the entrypoint and every component fragment with readButDoNotEvaluate, following client fields, pointers and argument substitution itself; a read that reports missing data or throws is a violation.",
+    comp_note + " Runtime binding: the 20 core modules are executed as found, with types blanked (mc/comp_mc/src/tsrun.rs; unsupported syntax is a machinery error); user resolvers are replaced by stand-ins; loadable / imperative boundaries are not crossed.", "bounded exhaustive program x response enumeration executed on the real TypeScript runtime under node", "2/C10")
+add("C25", "comp_mc", "exploration",
+    "For every entrypoint of every accepted program of the families (incl. the Reuse family: a child client field with refetchable selections under several parents, positions and entrypoints) and of the three checked-in demo projects: the real runtime normalizes the base response and reads it; every loader found in the data (__refetch, exposed fields, pointers, loadable fields; re-read to depth 2) is called and the operation handed to the network function is recorded; it must belong to the project and be the one generated for that field at that position (selections equal the enclosing operation's subtree at the record's position for __refetch / exposed fields; cover the field's reader for pointers and loadable fields, with the selection's arguments).",
+    comp_note + " The index composition is executed by the real runtime (type-blanked); the reference reader model for pointers / loadable fields is ~50 lines of JS.", "bounded exhaustive program enumeration executed on the real TypeScript runtime under node + structural comparison of operations", "2/C25")
+iso_note = ("Trusted: for C24 the TypeScript matching semantics iso.ts relies on, written out as a small reference (first overload in file order whose parameter type accepts the literal; Whitespace / MatchesWhitespaceAndString interpreted from the generated file itself) because no tsc is available; module resolution is lexical.")
+add("C24", "iso_mc", "exploration",
+    "Every program with <= 3/4 declaration slots over types {A, AB} x names {f, fx, fxy, f_} x {field, field+entrypoint, pointer, @component} (names that are prefixes of one another), compiled by the real compiler under the default, no_babel_transform, file-extension and commonjs options; the generated iso.ts is parsed with swc and its overload list, patterns and owning declarations are read from it; every declaration's literal under a 480-layout product of header white space (each checked by the real parser) must resolve, first match in file order, to the overload of the same declaration.",
+    iso_note, "bounded exhaustive program x header-layout enumeration against the overload list parsed from the real iso.ts", "2/C24")
+add("C28", "iso_mc", "exploration",
+    "Every literal header over {entrypoint, field, pointer} x name pairs incl. prefixes of keywords and of each other x tails x the full product of a gap alphabet over the header gaps, plus every isogen grammar sentence up to N tokens re-headed; each token sequence is compiled once by the real compiler (acceptance + the real entrypoint artifact path); every layout the real parser accepts is run through the REAL SWC visitor in-process at call sites with decoy code, over 17 (project root, artifact directory, file depth) environments and both module settings: same classification, the import path resolves to exactly the compiler's entrypoint artifact, field / pointer calls become the function passed (or identity), everything else prints identically.",
+    "Trusted: swc_ecma_codegen for printing; lexical path resolution; the plugin is run with absolute paths and no unresolved mark.", "bounded exhaustive grammar-directed header enumeration on the real SWC transform vs the real compiler", "2/C28")
+
 lsp_note = ("Trusted: the UTF-16 reference (mc/lsp_mc/src/text.rs), the position-free projection of parsed literals (proj.rs), the isogen grammar; the server is the real LspState with every handler called in-process over a project in /dev/shm.")
 add("C21", "lsp_mc", "model_checking",
     "Explicit-state exploration of editor histories on the real LspState: every sequence up to depth d over {didOpen/didChange/didClose of 2 files with 3 contents each, on-disk edits, validate, queries}, from a fresh server and from a server that already validated once; after every history the client view (latest published diagnostics per URI; semantic tokens, formatting, hover and definition at fixed positions of every file) must equal that of a fresh server started on the same disk contents and open buffers.",
@@ -137,9 +155,10 @@ m = {
         {"name": "pico_mc", "path": "/verif/mc/pico_mc", "serves_properties": ["C01", "C02", "C03", "C04"], "kind_free_text": "explicit-state history explorer (seqx) driving the real pico crate against a reference evaluator + ideal incremental engine; pairwise key-space check for #[memo]"},
         {"name": "fs_mc", "path": "/verif/mc/fs_mc", "serves_properties": ["C18", "C19"], "kind_free_text": "explicit-state exploration of artifact-directory sessions and exhaustive fault-point enumeration on the real planner/applier over a real directory in /dev/shm"},
         {"name": "lang_mc", "path": "/verif/mc/lang_mc", "serves_properties": ["C07", "C31", "C32", "C33"], "kind_free_text": "bounded-exhaustive input explorers (grammar-directed token enumeration, text/span enumeration) on the real parser, excerpt renderer, position resolver and signer"},
-        {"name": "comp_mc", "path": "/verif/mc/comp_mc", "serves_properties": ["C08", "C09", "C11", "C12", "C13", "C14", "C15", "C16", "C17", "C26"], "kind_free_text": "progx: bounded-exhaustive program enumeration compiled by the real compiler (crash-isolated workers) with per-property oracles (swc TypeScript parser/evaluator, GraphQL validator)"},
+        {"name": "comp_mc", "path": "/verif/mc/comp_mc", "serves_properties": ["C08", "C09", "C10", "C11", "C12", "C13", "C14", "C15", "C16", "C17", "C25", "C26", "C27"], "kind_free_text": "progx: bounded-exhaustive program enumeration compiled by the real compiler (crash-isolated workers) with per-property oracles (swc TypeScript parser/evaluator, GraphQL validator)"},
         {"name": "lsp_mc", "path": "/verif/mc/lsp_mc", "serves_properties": ["C21", "C22", "C23"], "kind_free_text": "explicit-state history explorer on the real LspState (fresh-server differential oracle) and bounded-exhaustive document/position enumeration vs a UTF-16 reference"},
         {"name": "gql_mc", "path": "/verif/mc/gql_mc", "serves_properties": ["C29", "C30"], "kind_free_text": "bounded-exhaustive sentence / prefix / separator / single-edit enumeration of GraphQL documents through relay's graphql-syntax and isograph's schema parser vs a reference lexer+parser of the June 2018 grammar"},
+        {"name": "iso_mc", "path": "/verif/mc/iso_mc", "serves_properties": ["C24", "C28"], "kind_free_text": "bounded-exhaustive header / program enumeration: the real SWC visitor in-process vs the real compiler's artifact paths; the overload list parsed from the real iso.ts vs a written-out first-match reference"},
         {"name": "intern_mc", "path": "/verif/mc/intern_mc", "serves_properties": ["C05", "C06"], "kind_free_text": "loom models over the real intern crate (cfg shim) + bounded-exhaustive sequential sweep"},
     ],
     "checks": checks,
